@@ -171,3 +171,57 @@ Proof. vm_compute. reflexivity. Qed.
 Example C19_legacy_unknown_target_refuted :
   legacy_construct ex_ok ex_ok 99%positive ex_sub 50%positive (ex_graph [3; 4; 77]%positive) = RawError.
 Proof. vm_compute. reflexivity. Qed.
+
+(* ---- strict_types on an edge that crosses nested-graph boundaries (nodes/graph_node.py get_input_types /
+        get_output_types, graph/validation.py _validate_edge_types) ---- *)
+From HG Require Import BoundaryTypes BoundaryTypesProofs BoundaryTypesExample.
+From Coq Require Import Permutation.
+
+(* the edge check passes iff EVERY offered (producer type, consumer type) pair is annotated and compatible *)
+Theorem C19_boundary_every_pair list_id sub any_id src dst v :
+  edge_ok list_id sub any_id src dst v = true <->
+  forall a b, In a (out_types list_id src v) -> In b (in_types list_id dst v) ->
+              exists x y, a = Some x /\ b = Some y /\ compat sub any_id x y = true.
+Proof. exact (edge_ok_spec list_id sub any_id src dst v). Qed.
+Print Assumptions C19_boundary_every_pair.
+
+(* a nested graph offers one type per inner LEAF consumer (producer) of the value, to any depth, wrapped in list[] once
+   per mapping level: no inner node is skipped *)
+Theorem C19_boundary_all_consumers list_id t p :
+  wf_in t p -> in_types list_id t p = map (unwrapped list_id) (leaf_consumers t p).
+Proof. exact (in_types_leaves list_id t p). Qed.
+Print Assumptions C19_boundary_all_consumers.
+
+Theorem C19_boundary_all_producers list_id t o :
+  wf_out t o -> out_types list_id t o = map (unwrapped_out list_id) (leaf_producers t o).
+Proof. exact (out_types_leaves list_id t o). Qed.
+Print Assumptions C19_boundary_all_producers.
+
+Theorem C19_boundary_leaf_pairs list_id sub any_id src dst v :
+  wf_out src v -> wf_in dst v ->
+  (edge_ok list_id sub any_id src dst v = true <->
+   forall e f, In e (leaf_producers src v) -> In f (leaf_consumers dst v) ->
+               exists x y, unwrapped_out list_id e = Some x /\ unwrapped list_id f = Some y /\ compat sub any_id x y = true).
+Proof. exact (edge_ok_leaves list_id sub any_id src dst v). Qed.
+Print Assumptions C19_boundary_leaf_pairs.
+
+(* the verdict does not depend on the order in which the inner nodes are listed *)
+Theorem C19_boundary_consumer_order list_id sub any_id src nm ins outs ch ch' iren oren mo v :
+  Permutation ch ch' ->
+  edge_ok list_id sub any_id src (TGraph nm ins outs ch iren oren mo) v =
+  edge_ok list_id sub any_id src (TGraph nm ins outs ch' iren oren mo) v.
+Proof. exact (edge_ok_perm_consumer list_id sub any_id src nm ins outs ch ch' iren oren mo v). Qed.
+Print Assumptions C19_boundary_consumer_order.
+
+Theorem C19_boundary_producer_order list_id sub any_id dst nm ins outs ch ch' iren oren mo v :
+  Permutation ch ch' ->
+  edge_ok list_id sub any_id (TGraph nm ins outs ch iren oren mo) dst v =
+  edge_ok list_id sub any_id (TGraph nm ins outs ch' iren oren mo) dst v.
+Proof. exact (edge_ok_perm_producer list_id sub any_id dst nm ins outs ch ch' iren oren mo v). Qed.
+Print Assumptions C19_boundary_producer_order.
+
+Theorem C19_boundary_example :
+  edge_ok c_list sub0 c_any prod (inner [cons_int; cons_str]) 20%positive = false /\
+  edge_ok c_list sub0 c_any prod (inner [cons_str; cons_int]) 20%positive = false.
+Proof. exact both_orders_rejected. Qed.
+Print Assumptions C19_boundary_example.
